@@ -51,7 +51,7 @@ def run(c):
     drv = c.build("pool", race=not os.environ.get("C14_NORACE"))   # C14_NORACE: development only (mutation runs)
     if c.thorough:
         cfgs = ["PacketPoolMC.thorough.cfg", "PacketPoolMC.thorough2.cfg", "PacketPoolMC.quick.cfg",
-                "PacketPoolMC.quick2.cfg"]
+                "PacketPoolMC.quick2.cfg", "PacketPoolMC.live.cfg"]   # live: EventuallyHome under fairness
     else:
         cfgs = ["PacketPoolMC.quick.cfg", "PacketPoolMC.quick2.cfg"]
     if os.environ.get("C14_SKIPMC"):      # development only (mutation runs exercise the binding)
